@@ -1,7 +1,286 @@
 //! Minimisation of a failing (case, schedule) pair before it is reported.
+//!
+//! 1. Workload: greedy delta debugging over driver commands, handler / init
+//!    operations, auxiliary threads, component operations and the thread
+//!    count. A candidate is kept if the same rule fires under the recorded
+//!    schedule or under any of a few fresh schedules (the schedule of a changed
+//!    program cannot in general be reused).
+//! 2. Schedule: the recorded decision sequence of the final workload is reduced
+//!    to its context switches and switches are removed while the rule still
+//!    fires ("keep running the current thread if it is runnable").
+//!
+//! Everything is bounded by a wall-clock budget; the result is re-verified by
+//! the caller's replay command in a fresh process.
 
+use std::sync::Arc;
+use std::time::{Duration, Instant};
+
+use crate::case::*;
 use crate::explore::{Found, PropSpec};
 
+#[cfg(feature = "e1")]
+struct Ctx {
+    prop: &'static PropSpec,
+    rule: String,
+    key: String,
+    start: Instant,
+    budget: Duration,
+    runs: u64,
+}
+
+#[cfg(feature = "e1")]
+impl Ctx {
+    fn expired(&self) -> bool {
+        self.start.elapsed() > self.budget || self.runs > 6_000
+    }
+
+    /// Runs `case` under `spec`; returns the violation and the decisions if the rule fires.
+    fn fires(&mut self, case: &Arc<Case>, spec: &crate::outcome::SchedSpec) -> Option<(crate::oracle::Violation, Vec<u16>)> {
+        self.runs += 1;
+        let out = crate::engine::execute(case, spec);
+        let h = crate::hist::Hist::build(&out.log);
+        let mut g = crate::explore::Group::default();
+        let viols = (self.prop.check)(case, &out, &h, &mut g);
+        viols.into_iter().find(|v| v.rule == self.rule && v.key == self.key).map(|v| (v, out.sched.decisions.clone()))
+    }
+
+    /// Tries the recorded schedule first, then a few fresh ones.
+    fn fires_any(&mut self, case: &Arc<Case>, base: &Found, fresh: u32) -> Option<(crate::outcome::SchedSpec, crate::oracle::Violation, Vec<u16>)> {
+        let mut spec = base.spec.clone();
+        spec.replay = Some(base.decisions.clone());
+        spec.switches = None;
+        if let Some((v, d)) = self.fires(case, &spec) {
+            return Some((spec, v, d));
+        }
+        if crate::explore::is_single_schedule(case) {
+            return None;
+        }
+        for k in 0..fresh {
+            if self.expired() {
+                break;
+            }
+            let spec = crate::explore::portfolio(crate::rng::mix(base.case_seed, 0x4D1), k, (base.decisions.len() as u32 / 2).max(8), false);
+            if let Some((v, d)) = self.fires(case, &spec) {
+                return Some((spec, v, d));
+            }
+        }
+        None
+    }
+}
+
+/// All one-step reductions of a case.
+fn reductions(c: &Case) -> Vec<Case> {
+    let mut out = Vec::new();
+    // driver commands (keep a trailing DropSim)
+    for i in (0..c.script.len()).rev() {
+        if matches!(c.script[i], Cmd::DropSim) {
+            continue;
+        }
+        let mut x = c.clone();
+        x.script.remove(i);
+        out.push(x);
+    }
+    // auxiliary threads' commands
+    for a in 0..c.aux.len() {
+        for i in (0..c.aux[a].len()).rev() {
+            let mut x = c.clone();
+            x.aux[a].remove(i);
+            out.push(x);
+        }
+    }
+    // handler and init operations
+    for n in 0..c.nodes.len() {
+        for k in 0..c.nodes[n].on.len() {
+            for i in (0..c.nodes[n].on[k].len()).rev() {
+                let mut x = c.clone();
+                x.nodes[n].on[k].remove(i);
+                out.push(x);
+            }
+        }
+        for i in (0..c.nodes[n].init.len()).rev() {
+            let mut x = c.clone();
+            x.nodes[n].init.remove(i);
+            out.push(x);
+        }
+    }
+    // thread count
+    if c.cfg.threads > 2 {
+        let mut x = c.clone();
+        x.cfg.threads = 2;
+        out.push(x);
+    }
+    // scripted clock answers
+    if c.cfg.clock.iter().filter(|a| a.is_some()).count() > 1 {
+        for i in 0..c.cfg.clock.len() {
+            if c.cfg.clock[i].is_some() {
+                let mut x = c.clone();
+                x.cfg.clock[i] = None;
+                out.push(x);
+            }
+        }
+    }
+    // component scenarios
+    match &c.comp {
+        Some(Comp::Queue(q)) => {
+            for p in 0..q.producers.len() {
+                for i in (0..q.producers[p].len()).rev() {
+                    let mut x = c.clone();
+                    if let Some(Comp::Queue(qq)) = x.comp.as_mut() {
+                        qq.producers[p].remove(i);
+                    }
+                    out.push(x);
+                }
+            }
+            for i in (0..q.consumer.len()).rev() {
+                let mut x = c.clone();
+                if let Some(Comp::Queue(qq)) = x.comp.as_mut() {
+                    qq.consumer.remove(i);
+                }
+                out.push(x);
+            }
+        }
+        Some(Comp::Chan(ch)) => {
+            for p in 0..ch.producers.len() {
+                if ch.producers[p].len() > 1 && ch.sender_close.is_none() {
+                    let mut x = c.clone();
+                    if let Some(Comp::Chan(cc)) = x.comp.as_mut() {
+                        cc.producers[p].pop();
+                        if let Some(k) = cc.close_after {
+                            let total: usize = cc.producers.iter().map(|v| v.len()).sum();
+                            cc.close_after = Some(k.min(total as u8));
+                        }
+                    }
+                    out.push(x);
+                }
+            }
+        }
+        Some(Comp::Task(t)) => {
+            for th in 0..t.threads.len() {
+                for i in (0..t.threads[th].len()).rev() {
+                    let mut x = c.clone();
+                    if let Some(Comp::Task(tt)) = x.comp.as_mut() {
+                        tt.threads[th].remove(i);
+                    }
+                    out.push(x);
+                }
+            }
+        }
+        Some(Comp::Time(t)) => {
+            for r in 0..t.readers.len() {
+                for i in (0..t.readers[r].len()).rev() {
+                    let mut x = c.clone();
+                    if let Some(Comp::Time(tt)) = x.comp.as_mut() {
+                        tt.readers[r].remove(i);
+                    }
+                    out.push(x);
+                }
+            }
+            if t.writes > 1 {
+                let mut x = c.clone();
+                if let Some(Comp::Time(tt)) = x.comp.as_mut() {
+                    tt.writes -= 1;
+                }
+                out.push(x);
+            }
+        }
+        None => {}
+    }
+    out
+}
+
+#[cfg(not(feature = "e1"))]
 pub fn minimise(_prop: &'static PropSpec, f: &Found) -> Found {
+    let _ = (reductions, Duration::ZERO, Instant::now());
     f.clone()
+}
+
+#[cfg(feature = "e1")]
+pub fn minimise(prop: &'static PropSpec, f: &Found) -> Found {
+    // Not minimisable in-process: a killed worker (the call never reaches a scheduling point)
+    // and rules that compare several executions of one case.
+    if (f.violation.rule == "no_return" && f.violation.key == "process_killed") || f.violation.rule == "c04_executor_divergence" || f.violation.rule == "c10_partition_dependence" || f.decisions.is_empty() {
+        return f.clone();
+    }
+    let budget = Duration::from_secs(std::env::var("NXV_MIN_BUDGET").ok().and_then(|s| s.parse().ok()).unwrap_or(40));
+    let mut cx = Ctx { prop, rule: f.violation.rule.clone(), key: f.violation.key.clone(), start: Instant::now(), budget, runs: 0 };
+    let mut best = f.clone();
+    // The recorded pair must reproduce to begin with.
+    {
+        let case = Arc::new(best.case.clone());
+        match cx.fires_any(&case, &best, 0) {
+            Some((spec, v, d)) => {
+                best.spec = spec;
+                best.violation = v;
+                best.decisions = d;
+            }
+            None => return f.clone(),
+        }
+    }
+    let size0 = (best.case.script.len(), best.decisions.len());
+    // 1. workload
+    let mut progress = true;
+    while progress && !cx.expired() {
+        progress = false;
+        for cand in reductions(&best.case) {
+            if cx.expired() {
+                break;
+            }
+            let case = Arc::new(cand);
+            if let Some((spec, v, d)) = cx.fires_any(&case, &best, 12) {
+                best.case = (*case).clone();
+                best.spec = spec;
+                best.violation = v;
+                best.decisions = d;
+                progress = true;
+                break;
+            }
+        }
+    }
+    // 2. schedule: remove context switches
+    let case = Arc::new(best.case.clone());
+    if !crate::explore::is_single_schedule(&case) {
+        let mut sw = crate::sched::decisions_to_switches(&best.decisions);
+        let mk = |sw: &Vec<(u32, u16)>| crate::outcome::SchedSpec { kind: crate::outcome::SchedKind::RoundRobin, seed: best.spec.seed, replay: None, switches: Some(sw.clone()) };
+        if cx.fires(&case, &mk(&sw)).is_some() {
+            let mut chunk = (sw.len() / 2).max(1);
+            while chunk >= 1 && !cx.expired() {
+                let mut i = 0;
+                let mut removed = false;
+                while i < sw.len() && !cx.expired() {
+                    let mut cand = sw.clone();
+                    let hi = (i + chunk).min(cand.len());
+                    cand.drain(i..hi);
+                    if let Some((v, d)) = cx.fires(&case, &mk(&cand)) {
+                        sw = cand;
+                        best.violation = v;
+                        best.decisions = d;
+                        removed = true;
+                    } else {
+                        i += chunk;
+                    }
+                }
+                if chunk == 1 && !removed {
+                    break;
+                }
+                chunk = if chunk == 1 { 1 } else { chunk / 2 };
+                if chunk == 1 && !removed && sw.len() <= 1 {
+                    break;
+                }
+            }
+            best.spec = mk(&sw);
+        }
+    }
+    eprintln!(
+        "minimised {} / {}: script {} -> {} commands, schedule {} -> {} scheduling points ({} context switches kept), {} executions, {:.1}s",
+        prop.id,
+        best.violation.rule,
+        size0.0,
+        best.case.script.len(),
+        size0.1,
+        best.decisions.len(),
+        best.spec.switches.as_ref().map(|s| s.len()).unwrap_or(0),
+        cx.runs,
+        cx.start.elapsed().as_secs_f64()
+    );
+    best
 }
